@@ -104,12 +104,14 @@ def trace_stage(res, prop, family, driver_module, trace_module, n, strict_overri
     res.transitions += st["trace_states"]
     nt = 0
     seen = set()
-    suspects = {e["id"] for e in events if verdicts[e["id"]][0] not in ("ok", "unspec")}
+    suspects = {e["id"] for e in events if verdicts[e["id"]][0] not in ("ok", "unspec") and not pv.unclaimed_refusal(e.get("opts"), verdicts[e["id"]][0])}
     confirmed = confirm_events(family, events, suspects)
     if suspects - confirmed:
         res.extra.setdefault("transient", []).append({"stage": "trace", "events_not_reproduced": len(suspects - confirmed)})
     for e in events:
         v, exp = verdicts[e["id"]]
+        if pv.unclaimed_refusal(e.get("opts"), v):
+            v = "unspec"
         h = short_hash(e["case"])
         if v == "unspec":
             res.unspec += 1
@@ -347,8 +349,9 @@ def c19_trace_stage(res, props, n_each):
             e["id"] = len(events)
             e["prop"] = p
             events.append(e)
-    ev64 = [dict(e, opts=dict(e["opts"], width=64)) for e in events]
-    ev32 = [dict(e, opts=dict(e["opts"], width=32)) for e in events]
+    from .props import safe_opts
+    ev64 = [dict(e, opts=dict(safe_opts(e["opts"]), width=64)) for e in events]
+    ev32 = [dict(e, opts=dict(safe_opts(e["opts"]), width=32)) for e in events]
     exec_events("ragged", ev64)
     exec_events("ragged", ev32)
     payload = [{"id": e["id"], "case": e["case"], "out": e["out"], "strict": bool(e["strict"])} for e in ev32]
